@@ -529,42 +529,40 @@ func (x *xl) binary(e *ast.BinaryExpr, g *xGuards) string {
 
 // compare: a op b for operands of type t
 func (x *xl) compare(e *ast.BinaryExpr, t types.Type, a, b string) string {
-	{
-		var r string
-		_, _, isInt := xIntType(t)
-		switch {
-		case isInt:
-			switch e.Op {
-			case token.EQL, token.NEQ:
-				r = "(" + a + " =? " + b + ")"
-			case token.LSS:
-				return "(" + a + " <? " + b + ")"
-			case token.LEQ:
-				return "(" + a + " <=? " + b + ")"
-			case token.GTR:
-				return "(" + b + " <? " + a + ")"
-			case token.GEQ:
-				return "(" + b + " <=? " + a + ")"
-			}
-		case xIsBool(t) && (e.Op == token.EQL || e.Op == token.NEQ):
-			r = "(Bool.eqb " + a + " " + b + ")"
-		case xIsBytes(t) && xIsString(t) && (e.Op == token.EQL || e.Op == token.NEQ):
-			r = "(go_bytes_eqb " + a + " " + b + ")"
-		case xIsError(t) && (e.Op == token.EQL || e.Op == token.NEQ): // comparison with nil only
-			if !x.info.Types[e.Y].IsNil() && !x.info.Types[e.X].IsNil() {
-				x.fail(e, "errors can only be compared with nil")
-			}
-			r = "(Bool.eqb " + a + " " + b + ")"
-		case !xIsBytes(t) && (e.Op == token.EQL || e.Op == token.NEQ) && (x.info.Types[e.Y].IsNil() || x.info.Types[e.X].IsNil()):
-			x.fail(e, "comparison of a %s with nil is outside the subset", t)
-		default:
-			x.fail(e, "comparison %s of values of type %s is outside the subset", e.Op, t)
+	var r string
+	_, _, isInt := xIntType(t)
+	switch {
+	case isInt:
+		switch e.Op {
+		case token.EQL, token.NEQ:
+			r = "(" + a + " =? " + b + ")"
+		case token.LSS:
+			return "(" + a + " <? " + b + ")"
+		case token.LEQ:
+			return "(" + a + " <=? " + b + ")"
+		case token.GTR:
+			return "(" + b + " <? " + a + ")"
+		case token.GEQ:
+			return "(" + b + " <=? " + a + ")"
 		}
-		if e.Op == token.NEQ {
-			return "(negb " + r + ")"
+	case xIsBool(t) && (e.Op == token.EQL || e.Op == token.NEQ):
+		r = "(Bool.eqb " + a + " " + b + ")"
+	case xIsBytes(t) && xIsString(t) && (e.Op == token.EQL || e.Op == token.NEQ):
+		r = "(go_bytes_eqb " + a + " " + b + ")"
+	case xIsError(t) && (e.Op == token.EQL || e.Op == token.NEQ): // comparison with nil only
+		if !x.info.Types[e.Y].IsNil() && !x.info.Types[e.X].IsNil() {
+			x.fail(e, "errors can only be compared with nil")
 		}
-		return r
+		r = "(Bool.eqb " + a + " " + b + ")"
+	case !xIsBytes(t) && (e.Op == token.EQL || e.Op == token.NEQ) && (x.info.Types[e.Y].IsNil() || x.info.Types[e.X].IsNil()):
+		x.fail(e, "comparison of a %s with nil is outside the subset", t)
+	default:
+		x.fail(e, "comparison %s of values of type %s is outside the subset", e.Op, t)
 	}
+	if e.Op == token.NEQ {
+		return "(negb " + r + ")"
+	}
+	return r
 }
 
 // arith: a op b for integer operands, wrapped to the width of the result type where the operation can leave it
